@@ -204,6 +204,11 @@ type mdT struct {
 }
 
 func runC03(c *Ctx) {
+	if c.Quick() {
+		attrCases(c, 3000)
+	} else {
+		attrCases(c, 60000)
+	}
 	nW := 4000
 	if !c.Quick() {
 		nW = 100000
